@@ -6,7 +6,7 @@ cd /verif || exit 2
 PROPS=$(python3 -c "import json;print(' '.join(c['property_id'] for c in json.load(open('MANIFEST.json'))['checks']))")
 SEEDS="$@"
 [ -z "$SEEDS" ] && SEEDS=$(ls seeded | grep -E '^C[0-9]+-[0-9]+$' | sort -V)
-OUT=/verif/seeded/MATRIX.md
+OUT=${MATRIX_OUT:-/verif/seeded/MATRIX.md}
 TMP=$(mktemp -d)
 echo "# Which check catches which seeded change" > $OUT
 echo >> $OUT
@@ -20,7 +20,7 @@ for s in $SEEDS; do
   if ! git -C /repo apply /verif/seeded/$s/patch.diff 2>/dev/null; then echo "| $s | PATCH DOES NOT APPLY | | |" >> $OUT; continue; fi
   own=${s%%-*}
   for p in $PROPS; do
-    ( bin/p9check -prop $p -tier quick -evidence $TMP/$p.json > $TMP/$s.$p.out 2>&1 ) &
+    ( ${P9BIN:-bin/p9check} -prop $p -tier quick -evidence $TMP/$p.json > $TMP/$s.$p.out 2>&1 ) &
   done
   wait
   git -C /repo checkout -- . ; git -C /repo clean -fdq -- p9 fsimpl vecnet linux 2>/dev/null
